@@ -166,7 +166,7 @@ def check_cap(run: Run, prog: Program) -> None:
         raise AnalysisError(f"{MOD}:_Power: fields power / upper_bound not found")
     # ---- greedy top-up: every change of a cell's power is capped by that cell's own upper bound and
     #      happens only after the cell's allocation was found to be non-zero
-    gr = prep(prog, f"{BDA}._greedy_distribute_remaining_power")
+    gr = prep(prog, q(prog, "greedy"))
     run.analysed(gr.qual)
     n = 0
     for r in regions(gr.node):
@@ -214,7 +214,7 @@ def check_cap(run: Run, prog: Program) -> None:
         raise AnalysisError(f"{gr.qual}: no top-up increment found")
 
     # ---- cell creation in _distribute_power
-    dp = prep(prog, f"{BDA}._distribute_power")
+    dp = prep(prog, q(prog, "dp"))
     run.analysed(dp.qual)
     incl = roles.dp["incl"]
     nonzero = _nonzero_creations(prog, dp, pf)
@@ -232,7 +232,7 @@ def check_cap(run: Run, prog: Program) -> None:
                   "a group's initial allocation is not its minimum power", node=at(e.lineno), file=dp.file,
                   instance=f"{dp.qual}: cell starts at the loop element's min_power")
     # ---- min_power definition
-    ar = prep(prog, f"{BDA}._compute_battery_availability_ratio")
+    ar = prep(prog, q(prog, "ar"))
     run.analysed(ar.qual)
     excl = roles.ar["excl"]
     for _r, _p, e, a in _records(prog, ar, regions(ar.node)):
@@ -259,7 +259,7 @@ def _nonzero_creations(prog: Program, dp: FuncInfo, pf: list[str]):
         elem = None
         if r.kind == "loop" and r.element() is not None and r.headers and all(
                 isinstance(h, ast.Subscript) and isinstance(h.slice, ast.Constant) and h.slice.value == 0
-                and callee(h.value) == "self._compute_battery_availability_ratio" for h in r.headers):
+                and callee(h.value) == sc(prog, "ar") for h in r.headers):
             elem = r.element()
         out.append((r, p, e, a, elem))
     if not out:
@@ -270,7 +270,7 @@ def _nonzero_creations(prog: Program, dp: FuncInfo, pf: list[str]):
 # --------------------------------------------------------------------------------------------- INV
 def check_inv(run: Run, prog: Program) -> None:
     roles = _roles(prog)
-    fn = prep(prog, f"{BDA}._distribute_multi_inverter_pairs")
+    fn = prep(prog, q(prog, "mip"))
     run.analysed(fn.qual)
     incl, excl = roles.mip["incl"], roles.mip["excl"]
     outs = set()
@@ -380,9 +380,8 @@ def check_inv(run: Run, prog: Program) -> None:
 # --------------------------------------------------------------------------------------------- AVAIL
 def check_avail(run: Run, prog: Program) -> None:
     roles = _roles(prog)
-    for fname, want in (("_distribute_consume_power", ("soc_upper_bound", "soc")),
-                        ("_distribute_supply_power", ("soc", "soc_lower_bound"))):
-        fn = prep(prog, f"{BDA}.{fname}")
+    for fname, want in (("consume", ("soc_upper_bound", "soc")), ("supply", ("soc", "soc_lower_bound"))):
+        fn = prep(prog, q(prog, fname))
         run.analysed(fn.qual)
         hr = roles.headroom.get(fname)
         if hr is None:
@@ -422,7 +421,7 @@ def check_avail(run: Run, prog: Program) -> None:
         # that this table is what _distribute_power receives as headroom is how it was identified
         run.ok("C02.AVAIL", f"{fn.qual}: the clamped headroom table is handed to _distribute_power")
     # ratio is built from that availability
-    ar = prep(prog, f"{BDA}._compute_battery_availability_ratio")
+    ar = prep(prog, q(prog, "ar"))
     for _r, _p, e, a in _records(prog, ar, regions(ar.node)):
         run.check(_ratio_table(a) is not None and _ratio_table(a) == roles.ar.get("avail"), "C02.AVAIL", ar.qual,
                   "ratio = capacity_ratio * available_soc ** exponent",
@@ -430,7 +429,7 @@ def check_avail(run: Run, prog: Program) -> None:
                   "(zero headroom must give ratio zero)", node=at(e.lineno), file=ar.file,
                   instance=f"{ar.qual}: ratio = k * pow(headroom[own battery], exponent)")
     # every non-zero cell creation in the main loop depends on the element's own ratio
-    dp = prep(prog, f"{BDA}._distribute_power")
+    dp = prep(prog, q(prog, "dp"))
     pf = fields_of(prog, f"{MOD}:_Power")
     for _r, p, e, a, elem in _nonzero_creations(prog, dp, pf):
         ok = elem is not None and nonzero_established(p, f"{elem}.ratio")
@@ -450,7 +449,7 @@ def check_tab(run: Run, prog: Program) -> None:
     allocation routines work on magnitudes); an inclusion entry may additionally be clipped (min for upper,
     max for lower bounds).  The entry points ask for the direction they serve."""
     roles = _roles(prog)
-    fn = prep(prog, f"{BDA}._inclusion_exclusion_bounds")
+    fn = prep(prog, q(prog, "ieb"))
     run.analysed(fn.qual)
     if roles.flag is None:
         raise AnalysisError(f"{fn.qual}: the direction parameter (a boolean constant at the call sites) was not found")
@@ -486,8 +485,8 @@ def check_tab(run: Run, prog: Program) -> None:
                                    "own bound of the keyed component")
     if n < 4:
         raise AnalysisError(f"{fn.qual}: only {n} bound-table stores found")
-    for fname, want in (("_distribute_consume_power", False), ("_distribute_supply_power", True)):
-        efn = prog.func(f"{BDA}.{fname}")
+    for fname, want in (("consume", False), ("supply", True)):
+        efn = prog.func(q(prog, fname))
         a = roles.entry_flag.get(fname)
         ok = isinstance(a, ast.Constant) and a.value is want
         run.check(ok, "C02.TAB", efn.qual, f"_inclusion_exclusion_bounds(..., {roles.flag}={u(a) if a is not None else '?'})",
@@ -501,16 +500,16 @@ def check_sign(run: Run, prog: Program) -> None:
     the result untouched; the supply path hands on the negated request (the tables hold magnitudes) and
     negates every set-point of the result before returning that result."""
     roles = _roles(prog)
-    ieb = _own_params(prog.func(f"{BDA}._inclusion_exclusion_bounds"))
-    dpp = _own_params(prog.func(f"{BDA}._distribute_power"))
+    ieb = _own_params(prog.func(q(prog, "ieb")))
+    dpp = _own_params(prog.func(q(prog, "dp")))
     req_param: str | None = None
     te = TermEval()
-    for fname, sign in (("_distribute_consume_power", 1), ("_distribute_supply_power", -1)):
-        fn = prep(prog, f"{BDA}.{fname}")
+    for fname, sign in (("consume", 1), ("supply", -1)):
+        fn = prep(prog, q(prog, fname))
         run.analysed(fn.qual)
         regs = regions(fn.node)
         passed_on = set()
-        for _r, _p, e in all_calls(regs, "self._inclusion_exclusion_bounds"):
+        for _r, _p, e in all_calls(regs, sc(prog, "ieb")):
             passed_on |= {v.id for v in positional(e.node, ieb).values() if isinstance(v, ast.Name)}  # type: ignore[arg-type]
         own = [x for x in _own_params(fn) if x not in passed_on]
         if len(own) != 1:
@@ -528,7 +527,7 @@ def check_sign(run: Run, prog: Program) -> None:
                   "supply tables hold magnitudes)") + ": the allocation works against bounds of the wrong sign "
                   "or on a different amount", node=fn.node, file=fn.file,
                   instance=f"{fn.qual}: request handed on {'unchanged' if sign == 1 else 'negated'}")
-        calls = all_calls(regs, "self._distribute_power")
+        calls = all_calls(regs, sc(prog, "dp"))
         calls = [c for c in calls if c[0].kind == "top"] or calls
         res_text = u(calls[0][2].node)
         touched = [(r, p, t, v) for r in regs for p, _st in r.paths
@@ -561,7 +560,7 @@ def check_sign(run: Run, prog: Program) -> None:
 def check_exits(run: Run, prog: Program) -> None:
     """Every result of _distribute_power carries either the per-inverter split of the cells or all zeros
     (nothing available -> nothing commanded)."""
-    dp = prep(prog, f"{BDA}._distribute_power")
+    dp = prep(prog, q(prog, "dp"))
     rf = fields_of(prog, f"{MOD}:DistributionResult")
 
     def zero_table(e: ast.AST | None) -> bool:
@@ -579,7 +578,7 @@ def check_exits(run: Run, prog: Program) -> None:
         ok, split = False, False
         if isinstance(p.ret, ast.Call) and callee(p.ret) == "DistributionResult":
             d = ctor_args(p.ret, rf, dp.qual).get(rf[0])
-            if isinstance(d, ast.Subscript) and callee(d.value) == "self._distribute_multi_inverter_pairs":
+            if isinstance(d, ast.Subscript) and callee(d.value) == sc(prog, "mip"):
                 ok = split = True
             elif isinstance(d, ast.Name):
                 binds = [s.value for s in body_walk(dp.node) if isinstance(s, (ast.Assign, ast.AnnAssign))
@@ -614,17 +613,17 @@ def check_book(run: Run, prog: Program) -> None:
           entries of the reserve table lose (the entry reduced is the donor's)."""
     import re
 
-    dp = prep(prog, f"{BDA}._distribute_power")
+    dp = prep(prog, q(prog, "dp"))
     run.analysed(dp.qual)
     pf = fields_of(prog, f"{MOD}:_Power")
     regs = regions(dp.node)
     te = TermEval()
     # the ledger: the remainder handed to the top-up is `<request parameter> - <ledger after the loops>`
-    grp = _own_params(prog.func(f"{BDA}._greedy_distribute_remaining_power"))
+    grp = _own_params(prog.func(q(prog, "greedy")))
     ledgers: set[str] = set()
     request = None
     seen_args: list[str] = []
-    for _r, _p, e in the_call(regs, "self._greedy_distribute_remaining_power", dp, "C02.BOOK"):
+    for _r, _p, e in the_call(regs, sc(prog, "greedy"), dp, "C02.BOOK"):
         seen_args.append(u(e.node))
         for a in positional(e.node, grp).values():  # type: ignore[arg-type]
             poly = te.ev(a)
@@ -643,8 +642,11 @@ def check_book(run: Run, prog: Program) -> None:
                       "what is left of the request", node=dp.node, file=dp.file)
         return
     ledger = next(iter(ledgers))
-    # the ledger starts at zero (every binding outside the loops is a zero)
-    starts = _bindings_outside_loops(dp.node, ledger)
+    # one quantity may travel under several names (handed to a helper and taken back): plain copies
+    # between locals outside the loops join them
+    names = _aliases(dp.node, ledger)
+    # the ledger starts at zero: its value when the first loop that changes it is reached
+    starts = _start_values(dp.node, names)
     run.check(bool(starts) and all(is_zero(v) for v in starts), "C02.BOOK", dp.qual,
               f"{ledger} = {', '.join(u(v) for v in starts) or '?'} before the loops",
               f"the distributed-power ledger `{ledger}` does not start at zero: the remainder handed to the "
@@ -677,7 +679,9 @@ def check_book(run: Run, prog: Program) -> None:
         touched, ok, bad = False, True, None
         for p, _st in r.paths:
             gain, incs = cell_gain(p)
-            booked = _delta(te, p, ledger)
+            booked = Poly()
+            for nm in names:
+                booked = booked + _delta(te, p, nm)
             if gain.is_zero() and booked.is_zero():
                 continue
             touched = True
@@ -873,6 +877,53 @@ def _nothing_left(p: Any, res: str) -> bool:
     return False
 
 
+def _aliases(fn: ast.AST, name: str) -> list[str]:
+    """Locals joined to `name` by plain copies `a = b` outside the loops (one quantity under several names)."""
+    pairs: list[tuple[str, str]] = []
+
+    def suite(stmts: list[ast.stmt]) -> None:
+        for st in stmts:
+            if isinstance(st, (ast.For, ast.AsyncFor, ast.While, ast.FunctionDef, ast.AsyncFunctionDef, ast.ClassDef)):
+                continue
+            tgt = val = None
+            if isinstance(st, ast.Assign) and len(st.targets) == 1:
+                tgt, val = st.targets[0], st.value
+            elif isinstance(st, ast.AnnAssign):
+                tgt, val = st.target, st.value
+            if isinstance(tgt, ast.Name) and isinstance(val, ast.Name):
+                pairs.append((tgt.id, val.id))
+            for f in ("body", "orelse", "finalbody"):
+                sub = getattr(st, f, None)
+                if isinstance(sub, list) and sub and isinstance(sub[0], ast.stmt):
+                    suite(sub)
+
+    suite(fn.body)  # type: ignore[attr-defined]
+    out = [name]
+    grew = True
+    while grew:
+        grew = False
+        for a, b in pairs:
+            for x, y in ((a, b), (b, a)):
+                if x in out and y not in out:
+                    out.append(y)
+                    grew = True
+    return out
+
+
+def _start_values(fn: ast.AST, names: list[str]) -> list[ast.AST]:
+    """Values the quantity called `names` holds when the first top-level loop that re-binds it is reached
+    (symbolically, over the statements before that loop); falls back to the bindings outside the loops."""
+    from ._c02_util import value_before
+
+    got = value_before(fn, names)
+    if got is not None:
+        return got
+    out: list[ast.AST] = []
+    for nm in names:
+        out.extend(v for v in _bindings_outside_loops(fn, nm) if not (isinstance(v, ast.Name) and v.id in names))
+    return out
+
+
 def _bindings_outside_loops(fn: ast.AST, name: str) -> list[ast.AST]:
     """Values bound to the local `name` by statements that are not inside a loop."""
     out: list[ast.AST] = []
@@ -993,7 +1044,7 @@ def _check_res(run: Run, prog: Program, dp: FuncInfo, request: str | None, res: 
                       node=at(e.lineno), file=dp.file, path=p.describe(),
                       instance=f"{dp.qual}: a share below min_power records its deficit")
     for ledger in sorted(ledgers):
-        starts = _bindings_outside_loops(dp.node, ledger)
+        starts = _start_values(dp.node, [ledger])
         run.check(bool(starts) and all(is_zero(v) for v in starts), "C02.RES", dp.qual,
                   f"{ledger} = {', '.join(u(v) for v in starts) or '?'} before the loop",
                   f"the reservation ledger `{ledger}` does not start at zero", node=dp.node, file=dp.file,
